@@ -319,7 +319,8 @@ impl Property for C04 {
         vec![
             "application calls stay in the documented domain (fport 1..=223, payload within the regional maximum, set_datarate only to region-defined rates)".into(),
             "a hang that draws no random numbers is caught only by the wall-clock watchdog (reported unminimised)".into(),
-            "radio errors are not injected here (the statement is about received frames and commands)".into(),
+            "radio errors are not injected by this property's own generator (the statement is about received frames and commands); they reach this oracle through the histories borrowed from C06 / C05".into(),
+            "the application may abandon join() / send() (drop the future) at any of its waits - a sequence of application calls like any other; with the stub radio a radio call has taken effect when its wait is abandoned, a receive window or timer wait is abandoned before anything happened; in full-stack runs the future is dropped while the real driver waits for TxDone / in the window".into(),
         ]
     }
     fn components(&self) -> serde_json::Value {
